@@ -23,12 +23,12 @@ use syn::*;
 
 const SET: &str = "DownlinkMacCommand";
 
-fn new_tr<'a>(reg: &'a Registry, self_ty: Option<String>, prefix: &str) -> FnTr<'a> {
+pub(crate) fn new_tr<'a>(reg: &'a Registry, self_ty: Option<String>, prefix: &str) -> FnTr<'a> {
     FnTr { reg, self_ty, ret: Ty::Unit, counter: 0, fn_prefix: prefix.to_string(), local_fns: HashMap::new(), extra_defs: vec![], muts: vec![], tparams: HashMap::new() }
 }
 
 /// every `quote! { .. }` of the derive, as token streams
-fn quote_templates(mac_file: &File) -> Vec<TokenStream> {
+pub(crate) fn quote_templates(mac_file: &File) -> Vec<TokenStream> {
     use syn::visit::Visit;
     struct V(Vec<TokenStream>);
     impl<'ast> Visit<'ast> for V {
@@ -48,7 +48,7 @@ fn squash(ts: &TokenStream) -> String {
 }
 
 /// the one template whose text contains every `has` and none of `not`
-fn pick<'t>(ts: &'t [TokenStream], what: &str, has: &[&str], not: &[&str]) -> Res<&'t TokenStream> {
+pub(crate) fn pick<'t>(ts: &'t [TokenStream], what: &str, has: &[&str], not: &[&str]) -> Res<&'t TokenStream> {
     let c: Vec<&TokenStream> = ts.iter().filter(|t| {
         let s = squash(t);
         has.iter().all(|h| s.contains(h)) && !not.iter().any(|n| s.contains(n))
@@ -61,7 +61,7 @@ fn pick<'t>(ts: &'t [TokenStream], what: &str, has: &[&str], not: &[&str]) -> Re
 
 /// `quote!` interpolation: `#name` → `subst[name]`; `#( .. )*` / `#( .. ),*` → `subst["(<inner>)"]` (`#( #doc )*` → nothing);
 /// `#[attr]` is kept
-fn interp(ts: &TokenStream, subst: &HashMap<String, TokenStream>) -> Res<TokenStream> {
+pub(crate) fn interp(ts: &TokenStream, subst: &HashMap<String, TokenStream>) -> Res<TokenStream> {
     let toks: Vec<TokenTree> = ts.clone().into_iter().collect();
     let mut out = TokenStream::new();
     let mut i = 0;
@@ -111,7 +111,7 @@ fn interp(ts: &TokenStream, subst: &HashMap<String, TokenStream>) -> Res<TokenSt
     Ok(out)
 }
 
-fn ts(s: &str) -> TokenStream {
+pub(crate) fn ts(s: &str) -> TokenStream {
     s.parse().unwrap()
 }
 
@@ -120,8 +120,16 @@ fn ts(s: &str) -> TokenStream {
 /// (+ the fixed-length impl when `len` is given), no lifetime → the unit-struct template; one `parse_one` arm per
 /// variant (fixed / variable length by `len_opt`), in source order.
 fn expand(files: &[File]) -> Res<(File, Vec<crate::tables::CmdEntry>)> {
-    let sets = crate::tables::cmd_enums(&files[0])?;
-    let (_, entries) = sets.into_iter().find(|(n, _)| n == SET).ok_or(format!("enum {} not found", SET))?;
+    expand_of(SET, files)
+}
+
+/// builder F: the same for any of the six command sets (the enum is looked up in every file of the unit)
+pub(crate) fn expand_of(set: &str, files: &[File]) -> Res<(File, Vec<crate::tables::CmdEntry>)> {
+    let mut sets = vec![];
+    for f in files {
+        sets.extend(crate::tables::cmd_enums(f)?);
+    }
+    let (_, entries) = sets.into_iter().find(|(n, _)| n == set).ok_or(format!("enum {} not found", set))?;
     let mac = files.last().ok_or("no macro file")?;
     let q = quote_templates(mac);
     let t_lt = pick(&q, "the lifetimed payload struct", &["fnnew_from_raw", "#lt"], &[])?;
@@ -156,7 +164,7 @@ fn expand(files: &[File]) -> Res<(File, Vec<crate::tables::CmdEntry>)> {
     s.insert("(#impl_parse_one)".into(), arms);
     let body = interp(t_body, &s)?;
     let mut s: HashMap<String, TokenStream> = HashMap::new();
-    s.insert("handler".into(), ts(SET));
+    s.insert("handler".into(), ts(set));
     s.insert("lt".into(), ts("'a"));
     s.insert("parse_one_body".into(), body);
     src.extend(interp(t_impl, &s)?);
@@ -164,7 +172,7 @@ fn expand(files: &[File]) -> Res<(File, Vec<crate::tables::CmdEntry>)> {
     Ok((file, entries))
 }
 
-fn impl_fn<'f>(file: &'f File, ty: &str, name: &str) -> Option<(&'f Signature, &'f Block)> {
+pub(crate) fn impl_fn<'f>(file: &'f File, ty: &str, name: &str) -> Option<(&'f Signature, &'f Block)> {
     for it in &file.items {
         if let Item::Impl(im) = it {
             let self_name = match &*im.self_ty {
@@ -186,7 +194,7 @@ fn impl_fn<'f>(file: &'f File, ty: &str, name: &str) -> Option<(&'f Signature, &
     None
 }
 
-fn emit_fn(reg: &mut Registry, out: &mut String, ty: Option<&str>, name: &str, sig: &Signature, body: &Block) -> Res<()> {
+pub(crate) fn emit_fn(reg: &mut Registry, out: &mut String, ty: Option<&str>, name: &str, sig: &Signature, body: &Block) -> Res<()> {
     let lean = match ty {
         Some(t) => format!("{}.{}", t, name),
         None => name.to_string(),
@@ -241,11 +249,11 @@ pub fn payloads(files: &[File], _n: &[String], reg: &mut Registry, out: &mut Str
 }
 
 /// `Ok` / `Err` of one `Result` type renamed to the constructors of an inductive the unit declares
-struct ResultAs {
+pub(crate) struct ResultAs {
     /// for expressions
-    expr: Option<&'static str>,
+    pub(crate) expr: Option<&'static str>,
     /// for patterns
-    pat: Option<&'static str>,
+    pub(crate) pat: Option<&'static str>,
 }
 impl ResultAs {
     fn path(en: &str, v: &str) -> Path {
